@@ -44,7 +44,9 @@ def rule(nt, alts, mins=None, ident=False):
 
 # ------------------------------------------------------------------ start symbols
 rule("File", ["UnitFile", "ProgramFile", "Fragment", "Fragment", "Fragment"], ["Fragment"])
-rule("Fragment", ["TopStmtList", "RoutineImpl", "DeclSection DeclSections", "RoutineImpl RoutineImpl", "TypeSection"], ["TopStmtList"])
+rule("Fragment", ["TopStmtList", "RoutineImpl", "DeclSection DeclSections", "RoutineImpl RoutineImpl", "TypeSection",
+                  # several routines and a type section AFTER them (state of the parser carried from one routine to the next declarations)
+                  "RoutineImpl RoutineImpl RoutineImpl TypeSection", "BodylessRoutine RoutineImpl TypeSection RoutineImpl"], ["TopStmtList"])
 # statements at file level (as in the repository's data tests): no inline `var` / `const`, which would open a section there
 rule("TopStmtList", ["", "TopStmt ';' TopStmtList", "TopStmt ';' TopStmtList", "TopStmt"], [""])
 rule("TopStmt", ["@S TopStmtBody @."])
@@ -59,6 +61,16 @@ rule("AnonRoutineP", ["'procedure' '(' Params ')' @A 'begin' @{ AnonFirst ';' St
                       "'function' '(' Params ')' ':' Type @A 'begin' @{ AnonFirst ';' StmtList @C 'end' @} @.",
                       "'procedure' '(' Params ')' AnonVarSection @A 'begin' @{ AnonFirst ';' StmtList @C 'end' @} @."])
 rule("AnonFirst", ["@S IfStmt @.", "@S IfStmt @.", "@S CaseStmt @.", "@S ForStmt @.", "@S WhileStmt @.", "@S TryStmt @.", "@S RepeatStmt @.", "@S WithStmt @."], ["@S IfStmt @."])
+# state carried from one routine to the declarations after it (start symbol of Gen_carry.cfg): bodies whose statements hold lone
+# `<` / `>` comparisons, followed by routines with generic names, generic type declarations and attributes
+rule("Carry", ["CarryRoutine CarryNext CarryNext", "CarryRoutine CarryRoutine CarryNext", "CarryRoutine CarryNext"], ["CarryRoutine CarryNext"])
+rule("CarryRoutine", ["@T 'function' Ident OptParams ':' 'Boolean' ';' @{ @} @. @T 'begin' @{ CarryStmt ';' StmtList @C 'end' @} @. ';'",
+                      "@T 'procedure' Ident OptParams ';' @{ @} @. @T 'begin' @{ Stmt ';' CarryStmt ';' @C 'end' @} @. ';'"])
+rule("CarryStmt", ["@S 'Result' ':=' Ident '<' Ident @.", "@S Ident ':=' Ident '<' Number @.", "@S Ident ':=' '(' Ident '<' Ident ')' 'or' Ident @.", "@S Ident ':=' Ident '>' Number @.",
+                   "@S 'if' Ident '<' Ident 'then' @U 'exit' @. @.", "@S 'while' Ident '<' Number 'do' @U Ident '(' ')' @. @."])
+rule("CarryNext", ["@T 'procedure' TypeIdent '<' TypeIdent '>' '.' Ident OptParams ';' @{ @} @. @T 'begin' @{ StmtList @C 'end' @} @. ';'",
+                   "@T 'function' TypeIdent '<' TypeIdent ',' TypeIdent '>' '.' Ident ':' Type ';' @{ @} @. @T 'begin' @{ StmtList @C 'end' @} @. ';'",
+                   "@T 'type' @{ @D TypeIdent '<' TypeParams '>' '=' StructType ';' @. @} @.", "RoutineImpl", "CarryRoutine"])
 rule("UnitFile", ["'unit' QualIdent ';' 'interface' OptUses IntfDecls 'implementation' OptUses ImplDecls UnitEnd"])
 rule("UnitEnd", ["'end' '.'", "@R 'initialization' @{ StmtList @} @. 'end' '.'",
                  "@R 'initialization' @{ StmtList @} @. @R 'finalization' @{ StmtList @} @. 'end' '.'"])
@@ -67,7 +79,12 @@ rule("OptUses", ["", "'uses' UsesList ';'"])
 rule("UsesList", ["QualIdent", "QualIdent ',' UsesList", "QualIdent 'in' String ',' UsesList"])
 rule("QualIdent", ["Ident", "Ident '.' Ident", "Ident '.' Ident '.' Ident"])
 rule("IntfDecls", ["", "DeclSection IntfDecls", "RoutineDecl IntfDecls"])
-rule("ImplDecls", ["", "DeclSection ImplDecls", "RoutineImpl ImplDecls", "RoutineImpl ImplDecls"])
+rule("ImplDecls", ["", "DeclSection ImplDecls", "RoutineImpl ImplDecls", "RoutineImpl ImplDecls", "BodylessRoutine RoutineImpl ImplDecls"])
+# a routine without a body at the level of the implementation: `forward` / `external` with further directives around them
+rule("BodylessRoutine", ["@T RoutineHead ';' 'forward' ';' @.", "@T RoutineHead ';' 'forward' ';' 'overload' ';' @.", "@T RoutineHead ';' 'overload' ';' 'forward' ';' @.",
+                         "@T RoutineHead ';' 'external' String 'name' String ';' @.", "@T RoutineHead ';' 'external' String 'index' Number ';' @.",
+                         "@T RoutineHead ';' 'external' String 'delayed' ';' @.", "@T RoutineHead ';' 'stdcall' ';' 'external' String ';' @.", "@T RoutineHead ';' 'external' ';' @."],
+     ["@T RoutineHead ';' 'forward' ';' @."])
 rule("DeclSections", ["", "DeclSection DeclSections"])
 
 # ------------------------------------------------------------------ declaration sections
@@ -150,7 +167,7 @@ rule("RoutineDecl", ["@T RoutineHead ';' @.", "@T RoutineHead ';' 'overload' ';'
 rule("RoutineHead", ["'procedure' RoutineName OptParams", "'function' RoutineName OptParams ':' Type",
                      "'constructor' Ident '.' Ident OptParams", "'destructor' Ident '.' Ident",
                      "'class' 'function' Ident '.' Ident OptParams ':' Type"], ["'procedure' Ident"])
-rule("RoutineName", ["Ident", "Ident '.' Ident", "TypeIdent '<' TypeIdent '>' '.' Ident"], ["Ident"])
+rule("RoutineName", ["Ident", "Ident '.' Ident", "TypeIdent '<' TypeIdent '>' '.' Ident", "TypeIdent '<' TypeIdent ',' TypeIdent '>' '.' Ident"], ["Ident"])
 # the local declarations (sections, nested routines) form a block of the header: nested routines are indented under it
 rule("RoutineImpl", ["@T RoutineHead ';' @{ LocalDecls @} @. @T 'begin' @{ StmtList @C 'end' @} @. ';'"])
 rule("LocalDecls", ["", "", "VarSection LocalDecls", "ConstSection LocalDecls", "TypeSection LocalDecls", "RoutineImpl LocalDecls"])
@@ -167,6 +184,7 @@ rule("StmtBody", ["Assign", "Assign", "CallStmt", "CallStmt", "IfStmt", "CaseStm
      ["Assign", "CallStmt"])
 rule("SimpleBody", ["Assign", "CallStmt", "RaiseStmt", "InheritedStmt", "'exit'"], ["CallStmt"])
 rule("Assign", ["Designator ':=' Expr", "Designator ':=' Expr", "Ident ':=' Expr", "'Result' ':=' Expr", "Ident ':=' AnonRoutine", "Designator ':=' MLString",
+                "'Result' ':=' Ident '<' Ident", "Ident ':=' Ident '>' Number",
                 "Ident ':=' MLString '+' Expr"], ["Ident ':=' Factor0"])
 rule("CallStmt", ["Ident", "Ident '(' ArgList ')'", "Designator '.' Ident '(' ArgList ')'", "Designator '.' Ident", "Ident '(' ')'"], ["Ident"])
 rule("InlineVar", ["'var' Ident ':' Type ':=' Expr", "'var' Ident ':=' Expr", "'const' Ident '=' Expr"])
